@@ -123,8 +123,6 @@ Fixpoint walk (fuel : nat) (t : tnode) (cur comps : list string) (follow : bool)
 
 Definition max_links : nat := 40.   (* MAXSYMLINKS *)
 
-Definition nul : ascii := Ascii.zero.
-Definition has_nul (s : string) : bool := contains_char nul s.
 
 (* resolution of a component list from the root (an absolute path) *)
 Definition c_walk (t : tnode) (p : list string) (follow : bool) : wres :=
